@@ -82,7 +82,16 @@ def design_level(out, tier):
     res = run_tlc('MCFanout.tla', 'MCFanout_dev_skip.cfg', workers=4, timeout=300)
     if res.violation not in ('SameResults', 'UnionIsReference'):
         raise MachineryError('MCFanout_dev_skip was expected to violate SameResults or UnionIsReference, got %s %s' % (res.violation, res.error))
-    out.notes['design_deviations_rejected'] = ['dev_skip (aggregates skip the last shard) violates %s' % res.violation]
+    rej = ['dev_skip (aggregates skip the last shard) violates %s' % res.violation]
+    res = run_tlc('MCFanoutRemove.tla', 'MCFanoutRemove_ok.cfg', workers=8, timeout=600)
+    if res.error or res.violation:
+        raise MachineryError('MCFanoutRemove_ok: %s %s\n%s' % (res.error, res.violation, res.out[-1500:]))
+    out.add_tlc('MCFanoutRemove_ok.cfg', res, 'aggregate removal over 3 shards x 0..3 items, pages of 2, lock holders; CountsEverything, EveryShardOnce, Terminates')
+    res = run_tlc('MCFanoutRemove.tla', 'MCFanoutRemove_dev.cfg', workers=4, timeout=300)
+    if res.violation != 'CountsEverything':
+        raise MachineryError('MCFanoutRemove_dev was expected to violate CountsEverything, got %s %s' % (res.violation, res.error))
+    rej.append('dev (a Timeout count replaces the running total) violates CountsEverything')
+    out.notes['design_deviations_rejected'] = rej
 
 
 def run(prop, tier, seed):
